@@ -290,6 +290,22 @@ def run(prog, rep, tier):
                 rep.violation(R176, inst, "SyslineReader::drop_sysline: the message is removed from self.%s (line %d) before Arc::try_unwrap (line %d); when the unwrap fails it is not put back, and drop_data, which "
                               "iterates self.%s, never retries it: its lines and blocks are kept (3000 three-block messages, --blocksz 1024, slow stdout: blocks high 8664 of 8709)" % (fld, rc.line, tu.line, fld))
 
+    # ------------------------------------------------------------ R17.7 lift of C11 R11.8
+    import contextlib as _cl7, io as _io7
+    import c11 as _c11
+    from common import Report as _Rep7
+    R177 = rep.rule("R17.7", "only year-less notations take the whole-file missing-year pass (from C11 R11.8)")
+    _s11 = _Rep7("C11", "quick", dict(rep.meta))
+    _s11.finish = lambda *a, **k: 0
+    with _cl7.redirect_stdout(_io7.StringIO()):
+        _c11.run(prog, _s11, "quick")
+    for (rid_, key_, what_, det_) in _s11.violations:
+        if rid_ == "R11.8":
+            rep.violation(R177, key_.split("|", 1)[1], what_)
+    for k_ in sorted(_s11.rules.get("R11.8", {}).get("keys", ())):
+        rep.examined(R177, k_, sample={"rule": "R11.8", "instance": k_})
+    rep.floor("R17.7", 3)
+
     # ------------------------------------------------------------ R17.4 every block can be released
     # For a plain file nothing but LineReader::drop_line hands blocks to BlockReader::drop_block (the
     # look-behind drop exists only in the decoders).  drop_line releases the blocks of a line's parts
